@@ -66,7 +66,8 @@ extern int mpt_stream_dispatch(MPT_STRUCT(stream) *srm, int (*cmd)(void *, const
 	/* further message on queue (or decoder needs space the next call provides) */
 	{
 		int more = mpt_queue_recv(&srm->_rd);
-		if (more > 0 || more == MPT_ERROR(MissingBuffer)) {
+		/* (or met an error the next call has to report) */
+		if (more > 0 || more == MPT_ERROR(MissingBuffer) || more == MPT_ERROR(BadValue)) {
 			ret |= MPT_EVENTFLAG(Retry);
 		}
 	}
